@@ -97,6 +97,12 @@ def load_known():
 def finish(ctx, level_text, seed=0):
     """writes evidence, prints verdict lines, returns exit code"""
     pid = ctx.pid
+    ctx.rule_texts.setdefault("ENGINE", "the summariser has no blind spot on the functions this check traversed: no closure that (transitively) "
+                                        "writes storage is handed to an external call the primitive table does not model, and no path cap was hit")
+    for nm, clos in sorted(ctx.engine.blind):
+        ctx.ob("ENGINE", "effectful closure %s passed to unmodelled %s" % (clos, nm), None,
+               detail="UNDECIDED: closure %s writes storage but is invoked by %s, which the primitive table does not model; its effects "
+                      "are invisible to the rules" % (clos, nm))
     known = [k for k in load_known() if k.get("property") == pid and k.get("status", "known") == "known"]
     bad, knownhits = [], []
     for k in ctx.order:
